@@ -542,6 +542,9 @@ func (vc *VC) evalBin(e SBin, env *Env) SpecVal {
 		if a.Sort != "Int" || b.Sort != "Int" {
 			specFail("arithmetic on %s/%s in %s", a.Sort, b.Sort, e)
 		}
+		if e.Op == "*" {
+			return ghostVal(mulTerm(a.T, b.T), "Int")
+		}
 		return ghostVal(sx(e.Op, a.T, b.T), "Int")
 	case "/":
 		return ghostVal(sx("div", a.T, b.T), "Int")
